@@ -224,6 +224,12 @@ def small_configs(rng, tier):
     out.append(dict(M=2, L=3, I=5, J=120, spacing='gauss', offset=7.0, radius=1e-3))
     out.append(dict(M=2, L=6, I=5, J=6, spacing='gauss', offset=0.0, radius=1.0))
     out.append(dict(M=4, L=5, I=6, J=5, spacing='gauss', offset=0.1, radius=1.0))
+    # nodal and modal shapes coincide (Real: I = 2M-1, J = L; Fast: I = 2M, J = L); Gauss grids with J = L (rule exact
+    # just up to the last wavenumber) and J = L-1 (TL-like: last resolved wavenumber is L-2); dyadic extreme radii
+    out.append(dict(M=4, L=5, I=7, J=5, spacing='gauss', offset=0.0, radius=2.0 ** 30))
+    out.append(dict(M=4, L=5, I=8, J=5, spacing='gauss', offset=0.1, radius=2.0 ** -30))
+    out.append(dict(M=5, L=6, I=11, J=6, spacing='gauss', offset=0.0, radius=1.0))
+    out.append(dict(M=5, L=6, I=11, J=5, spacing='gauss', offset=0.0, radius=1.0))
     if tier != 'quick':
         out.append(dict(M=3, L=8, I=7, J=15, spacing='equiangular', offset=0.0, radius=7.0 / 3.0))
         out.append(dict(M=2, L=2, I=2, J=2, spacing='equiangular_with_poles', offset=0.0, radius=1.0))
@@ -244,6 +250,25 @@ def generate(ctx):
     cfgs = small_configs(rng, ctx.tier)
     yield 'factory', {}
     yield 'rejects', {}
+    # a mesh grid with non-default latitude spacing and longitude offset
+    yield 'mesh', {'mesh': [2, 2, 1], 'L': 7, 'K': 2, 'base': 1, 'seed': int(rng.integers(0, 2 ** 31)),
+                   'spacing': 'equiangular', 'lon_offset': 0.1}
+    # sizes above every threshold of the code and of the test-suite, skinny so that they stay cheap; decided by an
+    # independent numpy evaluation of the dumped tables and by real-vs-fast equivalence (NOT by the exact Q model)
+    bigs = [dict(M=130, L=131, I=260, J=9, spacing='gauss'),            # default options: stacked Fourier path (128 < M <= 256)
+            dict(M=3, L=4, I=8, J=300, spacing='gauss'), dict(M=3, L=3, I=6, J=520, spacing='equiangular'),
+            dict(M=2, L=4, I=8, J=1030, spacing='gauss'), dict(M=3, L=4, I=1030, J=4, spacing='gauss')]
+    if ctx.tier != 'quick':
+        bigs += [dict(M=130, L=131, I=259, J=131, spacing='gauss'), dict(M=257, L=258, I=514, J=6, spacing='gauss'),
+                 dict(M=385, L=386, I=770, J=5, spacing='equiangular'), dict(M=3, L=4, I=520, J=300, spacing='gauss'),
+                 dict(M=2, L=3, I=4, J=2050, spacing='equiangular_with_poles')]
+    for b in bigs:
+        yield 'big_numpy', {'cfg': dict(b, offset=0.0, radius=1.0), 'seed': int(rng.integers(0, 2 ** 31))}
+    ccfg = dict(M=3, L=4, I=8, J=5, spacing='gauss', offset=0.1, radius=7.0 / 3.0)
+    for fc in [dict(ccfg, impl='real'), dict(ccfg, impl='fast', base=4, stacked=1, rev=0), dict(ccfg, impl='fast')] + (
+            [] if ctx.tier == 'quick' else [dict(ccfg, impl='fast', base=1, stacked=0, rev=1),
+                                            dict(M=2, L=5, I=5, J=9, spacing='equiangular', offset=0.0, radius=1.0, impl='real')]):
+        yield 'contexts', {'cfg': fc, 'seed': int(rng.integers(0, 2 ** 31))}
     fcfg = dict(M=3, L=4, I=7, J=4, spacing='gauss', offset=0.1, radius=7.0 / 3.0)
     forms = [dict(fcfg, impl='real'), dict(fcfg, impl='fast', base=4, stacked=1, rev=0),
              dict(fcfg, impl='fast', base=1, stacked=0, rev=1)]
@@ -266,7 +291,7 @@ def generate(ctx):
         yield 'tables', {'cfg': dict(c, impl='real')}
         yield 'transforms', {'cfg': dict(c, impl='real'), 'seed': seed, 'max_onehot': 0,
                              'max_model_analysis': 10 if c['I'] * c['J'] < 300 else 2, 'lead': [[], [2], [2, 2]][n % 3]}
-        if n % 3 == 0 or c['M'] == 5:
+        if n % 3 == 0 or c['M'] == 5 or (c['I'], c['J']) == (2 * c['M'], c['L']):
             # the fast implementation on the same grid (options are explored exhaustively by C09)
             fc = dict(c, impl='fast', base=[1, 4, 8][(n // 3) % 3], stacked=int((n // 6) % 2), rev=0)
             yield 'layout', {'cfg': fc}
@@ -790,6 +815,128 @@ def r_forms(ctx, a):
     ctx.count('forms:' + tag)
 
 
+def np_tables(c, g):
+    """Dumped tables in the stacked-row indexing of the modal array: f (In, rows), p (rows, Jn, cols), w (Jn)."""
+    f, p, w = tables(g)
+    if is_fast(c):
+        if f.ndim == 3: f = np.transpose(f, (0, 2, 1)).reshape(f.shape[0], -1)
+        p = np.repeat(p, 2, axis=0)
+    return f, p, w
+
+
+def r_big_numpy(ctx, a):
+    """Sizes above the thresholds (M > 128: stacked Fourier path by DEFAULT; more than 256 / 512 / 1024 latitudes or
+    longitudes).  The exact Q model would be too slow here: these cases are decided by an independent numpy (float64)
+    evaluation of the dumped tables and by real-vs-fast equivalence through the re-indexing; non-dyadic data."""
+    jax, jnp, sh, fourier, al = J_()
+    c0 = a['cfg']; M, L, I, Jn = c0['M'], c0['L'], c0['I'], c0['J']
+    rng = np.random.Generator(np.random.PCG64(a['seed']))
+    cr = dict(c0, impl='real'); cf = dict(c0, impl='fast')          # fast with DEFAULT options
+    gr = make_grid(cr); gf = make_grid(cf)
+    s = gf.spherical_harmonics
+    want_stacked = 2 * math.ceil(M / 256) <= math.ceil(M / 128)
+    ctx.oracle('default stacked_fourier_transforms = (2 ceil(M/256) <= ceil(M/128))', bool(s.stacked_fourier_transforms) == want_stacked,
+               {'M': M, 'stacked': bool(s.stacked_fourier_transforms)})
+    ctx.count('big:default stacked' if s.stacked_fourier_transforms else 'big:default unstacked')
+    K = 2 * M - 1
+    mk = indep_mask(cr, (K, L))
+    x = rng.standard_normal((3, K, L)) * mk          # non-dyadic data
+    x[1] = 0
+    # the last wavenumbers: top total wavenumber (zonal and sectoral), and the last one a J = L-1 rule resolves
+    x[1, 0, L - 1] = 1.0; x[1, K - 1, L - 1] = -0.5; x[1, K - 2, max(L - 2, M - 1)] = 0.25
+    res, D = model_resolves(ctx, cr)
+    rows, cols = gf.modal_shape
+    Ex = np.zeros((3, rows, cols)); Ex[:, 0, :L] = x[:, 0]; Ex[:, 2:2 * M, :L] = x[:, 1:]
+    zr = to_nodal(gr, x); zf = to_nodal(gf, Ex)
+    fr, pr, wr = np_tables(cr, gr); ff, pf, wf = np_tables(cf, gf)
+    def np_synth(f, p, xx): return np.einsum('im,bmj->bij', f, np.einsum('mjl,bml->bmj', p, xx))
+    def np_ana(f, p, w, zz): return np.einsum('mjl,bmj->bml', p, np.einsum('im,bij->bmj', f, zz * w))
+    s_syn = float(np_synth(np.abs(fr), np.abs(pr), np.abs(x)).max()) + 1e-300
+    ctx.oracle_close('to_nodal (reference) = numpy evaluation of the dumped tables [numpy reference, not the Q model]', zr, np_synth(fr, pr, x), scale=s_syn)
+    ctx.oracle_close('to_nodal (fast, default options) = numpy evaluation of the dumped tables [numpy reference]', zf, np_synth(ff, pf, Ex), scale=s_syn)
+    ctx.oracle_close('to_nodal: fast(E x) = pad(real(x)) on a large grid', zf[:, :I, :Jn], zr, scale=s_syn)
+    ctx.oracle('to_nodal (fast): padding exactly zero', bool((zf[:, I:] == 0).all() and (zf[:, :, Jn:] == 0).all()), None)
+    yr = to_modal(gr, zr); yf = to_modal(gf, zf)
+    s_ana = float(np_ana(np.abs(fr), np.abs(pr), np.abs(wr), np.abs(zr)).max()) + 1e-300
+    ctx.oracle_close('to_modal (reference) = numpy evaluation of the dumped tables [numpy reference]', yr, np_ana(fr, pr, wr, zr), scale=s_ana)
+    ctx.oracle_close('to_modal (fast, default options) = numpy evaluation of the dumped tables [numpy reference]', yf, np_ana(ff, pf, wf, zf), scale=s_ana)
+    Pyf = np.concatenate([yf[:, 0:1, :L], yf[:, 2:2 * M, :L]], axis=1)
+    ctx.oracle_close('to_modal: Pi(fast(pad z)) = real(z) on a large grid', Pyf, yr, scale=s_ana)
+    ctx.oracle('to_modal (fast): extra row and padding exactly zero',
+               bool((yf[:, 1] == 0).all() and (yf[:, 2 * M:] == 0).all() and (yf[:, :, L:] == 0).all()), None)
+    # table relation, bitwise, at this size
+    phi = [0] + list(range(2, 2 * M))
+    ctx.table_obligation('tables_related at a large size (bitwise): f, p, w', bool(
+        np.array_equal(ff[:I][:, phi], fr) and (ff[:, 1] == 0).all() and np.array_equal(pf[phi][:, :Jn, :L], pr)
+        and np.array_equal(wf[:Jn], wr) and (wf[Jn:] == 0).all() and (ff[I:] == 0).all() and (pf[:, Jn:] == 0).all()), None)
+    # round trip where the grid resolves it (band-limited otherwise), integral identity
+    Lb = band_limit(cr, D)
+    if I >= 2 * M - 1 and Lb > 0:
+        xb = x.copy(); xb[:, :, Lb:] = 0
+        yb = to_modal(gr, to_nodal(gr, xb))
+        lmax = min(L - 1, D - (Lb - 1))
+        ctx.oracle_close('round trip on a large grid (band-limited to what the rule resolves)', yb[:, :, :lmax + 1], xb[:, :, :lmax + 1],
+                         scale=float(np_ana(np.abs(fr), np.abs(pr), np.abs(wr), np.abs(to_nodal(gr, xb))).max()) + 1e-300)
+    xi = x.copy(); xi[:, :, min(L, D + 1):] = 0
+    ii = np.asarray(gr.integrate(jnp.asarray(to_nodal(gr, xi))))
+    ctx.oracle_close('integral identity on a large grid', ii, math.sqrt(4 * math.pi) * xi[:, 0, 0],
+                     scale=float(np.einsum('j,bij->b', np.abs(wr), np.abs(to_nodal(gr, xi))).max()) + 1e-300)
+    # independent nodes / weights at this size
+    lon, xn = indep_nodes(cr)
+    ctx.oracle_close('latitude nodes at a large size = numpy leggauss / equal angles', np.asarray(gr.nodal_axes[1]), xn, scale=1.0, tol_rel=2.0 ** -40)
+    ctx.count('big:%dx%d nodes, M=%d' % (I, Jn, M))
+
+
+def r_contexts(ctx, a):
+    """to_nodal / to_modal / integrate inside jax transformations: jit, vmap, eval_shape, jvp (= the transform of the
+    tangent, they are linear) and vjp (finite and the adjoint: <T x, z> = <x, T^t z>)."""
+    jax, jnp, sh, fourier, al = J_()
+    c = a['cfg']; g = make_grid(c)
+    rng = np.random.Generator(np.random.PCG64(a['seed']))
+    rows, cols = g.modal_shape; In, Jn = g.nodal_shape
+    tag = c.get('impl', 'real') + ('/mesh' if c.get('rev') else '') + ('/default' if is_fast(c) and c.get('base') is None else '')
+    x = rng.standard_normal((3, rows, cols)); t = rng.standard_normal((3, rows, cols)); z = rng.standard_normal((3, In, Jn))
+    xj, tj, zj = jnp.asarray(x), jnp.asarray(t), jnp.asarray(z)
+    Z = to_nodal(g, x); Y = to_modal(g, z); Iz = np.asarray(g.integrate(zj))
+    s_syn = synth_scale(c, g, np.abs(x) + np.abs(t)); s_ana = analysis_scale(c, g, z)
+    s_int = float(np.einsum('j,bij->b', np.abs(tables(g)[2]), np.abs(z)).max() * g.radius ** 2) + 1e-300
+    def same(name, got, want, scale): ctx.oracle_close(f'{name} [{tag}]', np.asarray(got), want, scale=scale, tol_rel=2.0 ** -40)
+    same('jit(to_nodal) = to_nodal', jax.jit(g.to_nodal)(xj), Z, s_syn)
+    same('jit(to_modal) = to_modal', jax.jit(g.to_modal)(zj), Y, s_ana)
+    same('jit(integrate) = integrate', jax.jit(g.integrate)(zj), Iz, s_int)
+    same('jit(to_modal . to_nodal) = composition', jax.jit(lambda v: g.to_modal(g.to_nodal(v)))(xj), to_modal(g, Z), analysis_scale(c, g, Z))
+    es = jax.eval_shape(g.to_nodal, jax.ShapeDtypeStruct((3, rows, cols), jnp.float64))
+    em = jax.eval_shape(g.to_modal, jax.ShapeDtypeStruct((3, In, Jn), jnp.float64))
+    ctx.exact(f'eval_shape of to_nodal / to_modal [{tag}]', [list(es.shape), str(es.dtype), list(em.shape), str(em.dtype)],
+              [[3, In, Jn], 'float64', [3, rows, cols], 'float64'])
+    if not c.get('rev'):
+        same('vmap(to_nodal) over the leading axis = batched call', jax.vmap(g.to_nodal)(xj), Z, s_syn)
+        same('vmap(to_modal) over the leading axis = batched call', jax.vmap(g.to_modal)(zj), Y, s_ana)
+        same('vmap(integrate) = batched call', jax.vmap(g.integrate)(zj), Iz, s_int)
+    # forward mode: linear maps, so the tangent output is the map applied to the tangent
+    pz, tz = jax.jvp(g.to_nodal, (xj,), (tj,))
+    same('jvp(to_nodal): primal', pz, Z, s_syn); same('jvp(to_nodal): tangent = to_nodal(tangent)', tz, to_nodal(g, t), s_syn)
+    py, ty = jax.jvp(g.to_modal, (zj,), (jnp.asarray(Z),))
+    same('jvp(to_modal): primal', py, Y, s_ana); same('jvp(to_modal): tangent = to_modal(tangent)', ty, to_modal(g, Z), analysis_scale(c, g, Z))
+    # reverse mode: finite, and the adjoint identity
+    _, vj = jax.vjp(g.to_nodal, xj); (xbar,) = vj(zj); xbar = np.asarray(xbar)
+    ctx.oracle(f'vjp(to_nodal) is finite [{tag}]', bool(np.isfinite(xbar).all()), None)
+    lhs = float(np.sum(Z * z)); rhs = float(np.sum(x * xbar))
+    ctx.oracle_close(f'adjoint identity <to_nodal x, z> = <x, to_nodal^T z> [{tag}]', np.asarray(lhs), np.asarray(rhs),
+                     scale=float(np.sum(np.abs(Z) * np.abs(z))) * 8 + 1e-300)
+    _, vj = jax.vjp(g.to_modal, zj); (zbar,) = vj(xj); zbar = np.asarray(zbar)
+    ctx.oracle(f'vjp(to_modal) is finite [{tag}]', bool(np.isfinite(zbar).all()), None)
+    ctx.oracle_close(f'adjoint identity <to_modal z, x> = <z, to_modal^T x> [{tag}]', np.asarray(float(np.sum(Y * x))), np.asarray(float(np.sum(z * zbar))),
+                     scale=float(np.sum(np.abs(Y) * np.abs(x))) * 8 + 1e-300)
+    gi = np.asarray(jax.grad(lambda v: jnp.sum(g.integrate(v)))(zj))
+    wfull = np.broadcast_to(tables(g)[2] * g.radius ** 2, (3, In, Jn))
+    same('grad(integrate) = quadrature weights * radius^2', gi, wfull, float(np.abs(wfull).max()) + 1e-300)
+    # zero input in reverse mode (a where/division rewrite would give NaN only here)
+    _, vj0 = jax.vjp(g.to_modal, jnp.zeros((3, In, Jn))); (zb0,) = vj0(jnp.zeros((3, rows, cols)))
+    ctx.oracle(f'vjp at zero input with zero cotangent is exactly zero [{tag}]', bool((np.asarray(zb0) == 0).all()), None)
+    ctx.count('contexts:' + tag)
+
+
 def r_cache_integrity(ctx, a):
     """State across calls: module-level caches (lru_cache of the equiangular node functions) and per-grid cached
     tables must still hold what a fresh evaluation gives after everything this process has run, and grids of both
@@ -817,4 +964,4 @@ def r_cache_integrity(ctx, a):
     ctx.count('cache_integrity:node tables checked', len(used))
 
 
-RUNNERS = {'cache_integrity': r_cache_integrity, 'rejects': r_rejects, 'forms': r_forms, 'mesh': r_mesh, 'fourier_closed_form': r_fourier_closed_form, 'factory': r_factory, 'layout': r_layout, 'tables': r_tables, 'transforms': r_transforms}
+RUNNERS = {'big_numpy': r_big_numpy, 'contexts': r_contexts, 'cache_integrity': r_cache_integrity, 'rejects': r_rejects, 'forms': r_forms, 'mesh': r_mesh, 'fourier_closed_form': r_fourier_closed_form, 'factory': r_factory, 'layout': r_layout, 'tables': r_tables, 'transforms': r_transforms}
